@@ -194,6 +194,22 @@ Theorem c01_split_off_back_requirements_met : forall split records pipeline outp
 Proof. exact SplitOffProofs.split_off_back_requirements_met. Qed.
 Print Assumptions c01_split_off_back_requirements_met.
 
+(* the Select of the atomic pipeline = the requested output followed by what consumed transforms asked to have SELECTed; when
+   nothing is added the width is the requested one *)
+Theorem c01_split_off_back_select_extends : forall split records pipeline output,
+  exists extra, res_select (SplitOff.split_off_back split records pipeline output) = output ++ extra /\
+    (extra = [] -> length (res_select (SplitOff.split_off_back split records pipeline output)) = length output).
+Proof. exact SplitOffProofs.split_off_back_select_extends. Qed.
+Print Assumptions c01_split_off_back_select_extends.
+(* Full statement for an atomic pipeline that holds a set operation (FALSE: the anchor's half of finding C07-N12):
+     the Select has the width of the requested output (= the width of the other operand)
+   refuted on the real call for `from t | sort b | select {a} | append (from u | select {a})`: the Sort's key is SELECTed *)
+Theorem c01_setop_operand_width_refuted :
+  let r := SplitOff.split_off_back split_required records [TFrom [0; 1]%nat; TSort true [0%nat]; TSelect [1%nat]; TUnion; TSelect [1%nat]] [1%nat] in
+  In KUnion (map SplitOff.kind_of (res_atomic r)) /\ res_select r = [1; 0]%nat /\ length (res_select r) <> length [1%nat].
+Proof. vm_compute. repeat split; [right; right; right; left; reflexivity | discriminate]. Qed.
+Print Assumptions c01_setop_operand_width_refuted.
+
 (* ---- (b') the CODE's clause assembly.  Model/SelectPluck.v mirrors translate_select_pipeline's plucking (which conditions
    go to WHERE / HAVING, the first Aggregate behind the break, the LAST Sort, all Takes, DISTINCT) and is compared field by field
    with every real call (hook 7400a50).  Read as SQL clauses, what it plucks is the SELECT Theta-2 assembles: *)
@@ -357,6 +373,13 @@ Example c01_ex_requirement_stop :
   res_why (SplitOff.split_off_back split_required records
              [TFrom [0%nat; 1%nat]; TCompute (mkCompute 3%nat false (XOp [XCol 1%nat]) (Some (mkWin [] [])));
               TCompute (mkCompute 4%nat false (XOp [XCol 3%nat; XLeaf]) (Some (mkWin [] []))); TSelect [0%nat; 4%nat]] [0%nat; 4%nat]) = Some StopCompute.
+Proof. vm_compute. reflexivity. Qed.
+(* a stop at an Aggregate (real call, sql.postgres: `group {a} (aggregate {s = sum b}) | group {a} (sort {s} | take 1)`): the
+   DISTINCT ON's Sort asks for the aggregate's column at Plain complexity *)
+Example c01_ex_stop_aggregate :
+  res_why (SplitOff.split_off_back split_required records
+     [TFrom [0; 1]%nat; TCompute (mkCompute 3%nat true (XOp [XCol 1%nat]) None); TAggregate [0%nat] [3%nat] [Some (mkCompute 3%nat true (XOp [XCol 1%nat]) None)];
+      TSort false [0; 3]%nat; TDistinctOn [0%nat]; TSelect [0; 3]%nat] [0; 3]%nat) = Some StopAggregate.
 Proof. vm_compute. reflexivity. Qed.
 (* the code's plucking on a concrete pipeline: WHERE [1], GROUP BY 3, HAVING [4], ORDER BY the last sort, both takes *)
 Example c01_ex_pluck :
